@@ -27,6 +27,14 @@ claimed = {
    text="Same structure as C05 in 2D: msEdgeTable bits are the sign changes; in every one of the 16 configurations each crossing edge is an end point of exactly one segment and non-crossing edges of none (degree 2 after gluing, two disjoint segments for saddles); msToLines is shown by symbolic execution to emit exactly the table's segments minus those whose end points coincide; msInterpolate is on the edge, the linear zero crossing, symmetric. Caller pairing, circle bound and perimeter convergence are not_decided.",
    design_ref="8.8",
    technique="contract-based deductive verification: exhaustive ground lemmas over tables + symbolic execution of msToLines + SMT-discharged interpolation contracts"),
+ "C11": dict(
+   text="Data-structure contracts over an abstract view (batches sent so far ++ buffer) proved for Triangle3Buffer/Line2Buffer Write, Close and constructors for all input and buffer lengths and contents (symbolic slices): Write appends its input in order, flushes exactly one batch holding buffered ++ input when the threshold is reached, and continues with a fresh backing array; Close flushes the remainder; every buf access is under the mutex (guarded_by). The in-memory collector and the STL writers are proved, by loop invariants, to handle each received batch element exactly once in order (count incremented once per triangle). Channel delivery itself (FIFO, exactly once) and scheduling are assumed (A6); 3MF/DXF/SVG consumers are covered by C15's contracts.",
+   design_ref="8.11",
+   technique="contract-based deductive verification: view contracts over symbolic slices with Ackermannised selects, ghost event log, loop invariants with pre-state, lock-discipline obligations from SSA"),
+ "C13": dict(
+   text="Proved: STLHeader/STLTriangle have the 84/50-byte packed layouts and field order the format requires (from go/types); SaveSTL writes one header carrying uint32(len(mesh)) and then exactly one record per triangle, in order, whose Vertex1..3 are the triangle's vertices component by component and whose Normal is Triangle3.Normal(), then flushes; Normal is unit, perpendicular to both edges and right-handed for non-degenerate triangles; the streaming writer writes the same record per received triangle, counts each once (mod 2^32), and on success flushes, seeks to 0 and rewrites the header with that count; loadSTLBinary maps record i's Vertex1..3 to mesh[i][0..2]. Bytes produced by encoding/binary and float32 rounding are assumed (A1, A6); the ASCII round trip is not_decided.",
+   design_ref="8.13",
+   technique="contract-based deductive verification: per-iteration (body) obligations over a ghost log of external calls recorded by value, loop invariants, SMT (NRA for the normal)"),
  "C14": dict(
    text="Safety contracts on parseFloats, loadSTLAscii, loadSTLBinary and LoadSTL: every index, slice bound, nil dereference, make size and panic instruction of the real code is an obligation proved for arbitrary results of the external file / scanner / parser calls (all file contents), callers see callees by contract, and loadSTLBinary is proved to be called only when the file size equals 84 + 50*count (allocation proportional to the file). Loop termination is not checked (not_decided).",
    design_ref="8.14",
